@@ -576,7 +576,7 @@ func (n *normalizer) expandable(call *ast.CallExpr, st *inlState) string {
 		}
 		osel, _ := n.o(sel).(*ast.SelectorExpr)
 		s := n.info.Selections[osel]
-		if s == nil || len(s.Index()) != 1 {
+		if s == nil || s.Kind() != types.MethodVal || len(s.Index()) > 4 {
 			return "promoted method"
 		}
 		// generic receiver: caller must use the same type-parameter names (checked when binding)
@@ -939,6 +939,26 @@ func (n *normalizer) expandMode(call *ast.CallExpr, st *inlState, tail bool) (pr
 		s := n.info.Selections[osel]
 		_, wantPtr := sig.Recv().Type().(*types.Pointer)
 		_, havePtr := s.Recv().(*types.Pointer)
+		// a promoted method: the embedded fields on the way to it are spelled out (node.m() is node.base.m())
+		if idx := s.Index(); len(idx) > 1 {
+			t := s.Recv()
+			for _, fi := range idx[:len(idx)-1] {
+				if pt, isP := t.Underlying().(*types.Pointer); isP {
+					t = pt.Elem()
+				}
+				stt, isSt := t.Underlying().(*types.Struct)
+				if !isSt || fi >= stt.NumFields() {
+					return fail()
+				}
+				f := stt.Field(fi)
+				if f.Pkg() != nil && f.Pkg() != n.pkg.Types && !f.Exported() {
+					return fail()
+				}
+				recvExpr = &ast.SelectorExpr{X: recvExpr, Sel: ident(f.Name(), pos)}
+				t = f.Type()
+			}
+			_, havePtr = t.Underlying().(*types.Pointer)
+		}
 		rx := recvExpr
 		switch {
 		case wantPtr && !havePtr:
